@@ -33,8 +33,22 @@ func NewRows(dataShape []DataShape, data []byte) *Rows {
 }
 
 func (rows *Rows) GetColumn(colname string) (col interface{}) {
+	// SerializeColumnsToRows always puts the Epoch column first in a row, wherever it is listed in the
+	// data shapes: compute the offsets in that order
 	var offset int
-	for _, ds := range rows.GetDataShapes() {
+	shapes := rows.GetDataShapes()
+	ordered := make([]DataShape, 0, len(shapes))
+	for _, ds := range shapes {
+		if ds.Name == "Epoch" {
+			ordered = append(ordered, ds)
+		}
+	}
+	for _, ds := range shapes {
+		if ds.Name != "Epoch" {
+			ordered = append(ordered, ds)
+		}
+	}
+	for _, ds := range ordered {
 		if ds.Name == colname {
 			switch ds.Type {
 			case FLOAT32:
@@ -57,7 +71,11 @@ func (rows *Rows) GetColumn(colname string) (col interface{}) {
 				return getUInt64Column(offset, rows.GetRowLen(), rows.GetNumRows(), rows.GetData())
 			case STRING16:
 				return getString16Column(offset, rows.GetRowLen(), rows.GetNumRows(), rows.GetData())
-			case BOOL, BYTE:
+			case BYTE:
+				// BYTE is the signed 1-byte type ("i1", []int8) everywhere else (GetElementType,
+				// ConvertByteSliceInto): do not hand it back as []uint8
+				return getInt8Column(offset, rows.GetRowLen(), rows.GetNumRows(), rows.GetData())
+			case BOOL:
 				return getByteColumn(offset, rows.GetRowLen(), rows.GetNumRows(), rows.GetData())
 			default:
 				log.Error("unexpected column type specified:", ds.Type)
